@@ -117,7 +117,8 @@ class C02(PropBase):
         rng.shuffle(rejected)
         base = [F.df11(5, 0x400000 + i, 0) for i in range(5)] + [F.df17(5, 0x400001, F.me_ident(4, 3, F.callsign_codes("TEST123")))]
         chunk = rejected[: 400 if tier == "quick" else 5000]
-        ops = ["reset", "case a"] + gen.seg(base) + ["dump", "case b"] + gen.seg(chunk) + ["dump"]
+        # the rows are older than delete_after when the rejected lines arrive: not even the expiry sweep may be driven by them
+        ops = ["reset"] + gen.seg(base) + ["adv 61500", "case a", "dump", "case b"] + gen.seg(chunk) + ["dump"]
         impl, _, model = run.execute(ops, model=driver_ok)
         rep.evaluations += len(chunk)
         self.corr(rep, impl, model, "rejected lines against a populated table", None)
@@ -129,13 +130,13 @@ class C02(PropBase):
             lo = chunk
             while len(lo) > 1:
                 half = lo[: len(lo) // 2]
-                o2 = ["reset", "case a"] + gen.seg(base) + ["dump", "case b"] + gen.seg(half) + ["dump"]
+                o2 = ["reset"] + gen.seg(base) + ["adv 61500", "case a", "dump", "case b"] + gen.seg(half) + ["dump"]
                 i2, _, _ = run.execute(o2, model=False)
                 c2 = core.split_cases(i2)
                 same = [l for l in c2.get("a", []) if l.startswith(("row", "enddump"))] == [l for l in c2.get("b", []) if l.startswith(("row", "enddump"))]
                 lo = lo[len(lo) // 2:] if same else half
             self.fail(rep, f"a line that is not a frame changed the table: {lo[0][:80]!r}",
-                      {"ops": ["reset"] + gen.seg(base) + ["dump"] + gen.seg(lo) + ["dump"], "line_hex": lo[0].hex()})
+                      {"ops": ["reset"] + gen.seg(base) + ["adv 61500", "dump"] + gen.seg(lo) + ["dump"], "line_hex": lo[0].hex()})
 
     def judge_replay(self, rep, obj, impl, so, model):
         super().judge_replay(rep, obj, impl, so, model)
